@@ -7,6 +7,7 @@ import (
 	"math/rand"
 	"reflect"
 	"strings"
+	"sync"
 
 	"github.com/high-moctane/mocrelay"
 
@@ -247,7 +248,7 @@ func C10(run *core.Run) {
 	distinct := core.NewDistinct()
 	rounds := 3
 	if run.Thorough() {
-		rounds = 12
+		rounds = 80
 	}
 	// (1) structured client texts and their byte-level mutations
 	for i, c := range cases {
@@ -335,6 +336,119 @@ func C10(run *core.Run) {
 		pm, err := mocrelay.ParseClientMsg(enc)
 		if err != nil || !reflect.DeepEqual(pm, v) {
 			run.Violate(fmt.Sprintf("ParseClientMsg-differs:%T", v), fmt.Sprintf("%s -> %+v (%v)", enc, pm, err), map[string]any{"encoded": string(enc)})
+		}
+	}
+	// (3b) an encoding is a value: it does not change when something else is encoded afterwards, two
+	// different values with the same event id encode differently, and concurrent encoders do not disturb
+	// each other (the relay encodes on every connection's write loop)
+	{
+		type marshaler interface{ MarshalJSON() ([]byte, error) }
+		mk := func(i int) (any, func() any) {
+			e := conc.Event(g.Event(), randContent(r))
+			switch i % 3 {
+			case 0:
+				return mocrelay.NewServerEventMsg("sub"+fmt.Sprint(i), e), func() any { return new(mocrelay.ServerEventMsg) }
+			case 1:
+				return &mocrelay.ClientEventMsg{Event: e}, func() any { return new(mocrelay.ClientEventMsg) }
+			}
+			return &mocrelay.ClientAuthMsg{Event: e}, func() any { return new(mocrelay.ClientAuthMsg) }
+		}
+		for i := 0; i < 60*rounds; i++ {
+			v1, fresh1 := mk(i)
+			v2, _ := mk(i) // same type, another event
+			m1, ok1 := v1.(marshaler)
+			m2, ok2 := v2.(marshaler)
+			if !ok1 || !ok2 {
+				continue
+			}
+			enc1, err := m1.MarshalJSON()
+			if err != nil {
+				continue
+			}
+			keep := append([]byte{}, enc1...)
+			if _, err := m2.MarshalJSON(); err != nil {
+				continue
+			}
+			run.Add("values_roundtripped", 1)
+			if !bytes.Equal(keep, enc1) {
+				run.Violate(fmt.Sprintf("encoding-changed-by-a-later-encode:%T", v1), fmt.Sprintf("MarshalJSON output %s became %s after another value was encoded", trunc(keep), trunc(enc1)), map[string]any{"first": string(keep)})
+				break
+			}
+			back := fresh1()
+			if err := json.Unmarshal(enc1, back); err != nil || !reflect.DeepEqual(back, v1) {
+				run.Violate(fmt.Sprintf("value-roundtrip-differs:%T", v1), fmt.Sprintf("%s does not decode to the value it was encoded from (%v)", trunc(enc1), err), map[string]any{"encoded": string(enc1)})
+				break
+			}
+		}
+		// same id, different body (the id is a field like any other for the codec)
+		for i := 0; i < 40*rounds; i++ {
+			e := conc.Event(g.Event(), randContent(r))
+			alt := *e
+			alt.Content = e.Content + "~"
+			alt.Tags = append(append([]mocrelay.Tag{}, e.Tags...), mocrelay.Tag{"t", "alt"})
+			for k, pair := range [][2]any{
+				{mocrelay.NewServerEventMsg("s", e), mocrelay.NewServerEventMsg("s", &alt)},
+				{&mocrelay.ClientEventMsg{Event: e}, &mocrelay.ClientEventMsg{Event: &alt}},
+				{e, &alt},
+			} {
+				if _, err := json.Marshal(pair[0]); err != nil {
+					continue
+				}
+				enc, err := json.Marshal(pair[1])
+				if err != nil {
+					continue
+				}
+				var back any
+				switch k {
+				case 0:
+					back = new(mocrelay.ServerEventMsg)
+				case 1:
+					back = new(mocrelay.ClientEventMsg)
+				default:
+					back = new(mocrelay.Event)
+				}
+				run.Add("values_roundtripped", 1)
+				if err := json.Unmarshal(enc, back); err != nil || !reflect.DeepEqual(back, pair[1]) {
+					run.Violate(fmt.Sprintf("value-roundtrip-differs-after-same-id:%T", pair[1]), fmt.Sprintf("a value encoded right after another one with the same event id: %s (%v)", trunc(enc), err), map[string]any{"encoded": string(enc)})
+				}
+			}
+			if run.Violations() > 0 {
+				break
+			}
+		}
+		// concurrent encoders
+		var big []*mocrelay.ServerEventMsg
+		for i := 0; i < 8; i++ {
+			e := conc.Event(g.Event(), strings.Repeat(fmt.Sprintf("%d-%s ", i, randContent(r)), 1500))
+			big = append(big, mocrelay.NewServerEventMsg(fmt.Sprint("c", i), e))
+		}
+		var wg sync.WaitGroup
+		var mu sync.Mutex
+		bad := ""
+		for gi := 0; gi < 8; gi++ {
+			wg.Add(1)
+			go func(gi int) {
+				defer wg.Done()
+				for rep := 0; rep < 25*rounds; rep++ {
+					v := big[(gi+rep)%len(big)]
+					enc, err := json.Marshal(v)
+					back := new(mocrelay.ServerEventMsg)
+					if err == nil {
+						err = json.Unmarshal(enc, back)
+					}
+					if err != nil || !reflect.DeepEqual(back, v) {
+						mu.Lock()
+						bad = fmt.Sprintf("sub %s: %v", v.SubscriptionID, err)
+						mu.Unlock()
+						return
+					}
+				}
+			}(gi)
+		}
+		wg.Wait()
+		run.Add("values_roundtripped", int64(8*25*rounds))
+		if bad != "" {
+			run.Violate("value-roundtrip-differs-concurrent:ServerEventMsg", "8 goroutines encoding and decoding large EVENT messages: "+bad, map[string]any{"detail": bad})
 		}
 	}
 	// (4) hostile shapes: deep nesting, huge numbers, random bytes, invalid UTF-8
